@@ -481,6 +481,7 @@ func main() {
 	c.Assume("type-correctness of the generated packages is decided by the Go compiler (go build ./... and go vet ./... of executor, models, resolver stubs and stub file against the runtime packages of the tree under test), not by TLC")
 	c.Assume("identifier normalisation (ToGo family) is exercised through the identifier stress classes but not specified; field / argument names that normalise to the same Go identifier inside one type are not generated (gqlgen neither documents nor handles them)")
 	c.Assume("skip_mod_tidy is pinned to true (offline sandbox, the projects live inside the harness module); federation, custom templates, preserve_resolver, go_build_tags, local_prefix are outside the enumerated space")
+	c.Assume("autobindModel: `autobind:` lists the model output package (graph/model; for models=bound the first pass's output package hand), which holds a hand-written doc file and - with handInModel - a hand-written model that a schema type binds to (through autobind, or through an explicit models: entry when autobindModel is off)")
 	c.Assume("models=bound uses modelgen's own output, written into a user package by a first pass, as the autobound package; models=mixed autobinds hand-written models for an object, an enum and an input")
 	if js := os.Getenv("C17_ROW"); js != "" {
 		// debugging aid: run one row given by its non-default factors, keep the directory
@@ -523,6 +524,36 @@ func main() {
 		}
 	}
 	c.Set("known_defect_probe_rows", probed)
+	// the new cases: rows whose autobind list contains the model output package, and Generate steps with
+	// UNCHANGED input on top of the previous output (action Again of the specification)
+	abRows, abHand, again, evolved := 0, 0, 0, 0
+	for _, ch := range chains {
+		r0 := ch.Steps[0].Row
+		if r0.B("autobindModel") {
+			abRows++
+			if r0.B("handInModel") {
+				abHand++
+			}
+		}
+		for i := 1; i < len(ch.Steps); i++ {
+			if len(changed(ch.Steps[i-1].Row, ch.Steps[i].Row)) == 0 {
+				again++
+			} else {
+				evolved++
+			}
+		}
+	}
+	if again == 0 {
+		vlib.Infra("vacuous: no Generate step with unchanged input on top of previous output (action Again) was enumerated")
+	}
+	c.Set("regeneration", map[string]any{"rows_autobinding_the_model_output_package": abRows, "of_which_with_a_hand_written_model_in_it": abHand,
+		"generate_steps_with_unchanged_input_on_previous_output": again, "generate_steps_after_an_evolution": evolved})
+	for _, ch := range chains {
+		if len(ch.Steps) > 1 && ch.Steps[0].Row.B("autobindModel") && len(changed(ch.Steps[0].Row, ch.Steps[1].Row)) == 0 {
+			c.Sample(map[string]any{"start": ch.Start, "what": "Generate x" + strconv.Itoa(len(ch.Steps)) + " in one directory, nothing changed in between; autobind lists the model output package", "non_default_factors": ch.Steps[0].Row.NonDefault()})
+			break
+		}
+	}
 	fmt.Fprintf(os.Stderr, "c17: %d generate steps in %.1fs, %d failing, %d infra\n", r.points, time.Since(t0).Seconds(), len(r.fails), len(r.infra))
 	if len(r.infra) > 0 && len(r.infra)*5 > r.points {
 		vlib.Infra("too many points could not be decided (timeouts / crashes of the tools): %s", strings.Join(r.infra, "; "))
@@ -539,7 +570,7 @@ func main() {
 	c.Set("features_observed_in_rendered_schemas", feats)
 	c.Set("undecided_points", len(r.infra))
 	c.Set("exhaustive", false)
-	c.Set("rule", "rows of spec/ProjectCover.tla: pairwise cover of 41 boolean + 4 multi-valued factors (+ 7 known-defect constructs pinned to FALSE in the cover, one probe row each) (schema features x documented configuration), checked pairwise by TLC (ASSUME CoverOK), + seeded rows (+ full factorial over CubeFactors in the thorough tier); every Generate step TLC enumerates (incl. evolutions in one directory) is replayed through the real generator + go build + go vet; a class is distinct by its multi-valued part, layouts and the numbers of features / options switched on")
+	c.Set("rule", "rows of spec/ProjectCover.tla: pairwise cover of 43 boolean + 4 multi-valued factors (+ 8 known-defect constructs pinned to FALSE in the cover, one probe row each) (schema features x documented configuration), checked pairwise by TLC (ASSUME CoverOK), + seeded rows (+ full factorial over CubeFactors in the thorough tier); every Generate step TLC enumerates (incl. evolutions in one directory and re-runs with unchanged input on top of the previous output where autobind lists the model output package) is replayed through the real generator + go build + go vet; a class is distinct by its multi-valued part, layouts and the numbers of features / options switched on")
 	r.report(r.fails)
 	c.Finish()
 }
